@@ -112,6 +112,10 @@ def directed_trees(rng):
     for cap in ("none", "one"):
         wl = dict(words=[o("one"), o("two")], nolist=0, len=4, cap=cap, sep="customlist", sepChar=[], sepVals=[[], o("-")])
         out.append(dict(kind="wl", wl=wl, maxTrials=1, failRateOne=1, mode="tree", paths=0, maxLeaves=20000, tag="wl-directed-mixed-gaps", reps=0))
+    # a word and a separator longer than a token index can describe (255 characters): still ONE atom, ONE separator token each
+    for sepc in (o("-") * 256, [0x2192] * 300, o("-")):
+        wl = dict(words=[o("w") * 255, [0xE9] * 256 + o("x"), o("q") * 300, o("one")], nolist=0, len=2, cap="first", sep="char", sepChar=sepc)
+        out.append(dict(kind="wl", wl=wl, maxTrials=1, failRateOne=1, mode="tree", paths=0, maxLeaves=20000, tag="wl-directed-long-tokens", reps=0))
     wl = dict(words=[o("one"), [0xA0], [0x200B, 0x200B], o("two")], nolist=0, len=2, cap="none", sep="char", sepChar=o("-"))
     out.append(dict(kind="wl", wl=wl, maxTrials=1, failRateOne=1, mode="tree", paths=0, maxLeaves=20000, tag="wl-directed-nonprinting", reps=0))
     return out
